@@ -14,15 +14,19 @@ ISqrtUp(x, r) == IF r * r >= x THEN r ELSE ISqrtUp(x, r + 1)
 Allowed(r10, a, c, probes) ==
     LET mean == (r10 * a * (probes \div 10)) \div c + 1       \* rate * probes, rounded up
     IN mean + 6 * ISqrtUp(mean, 0) + 10
+\* points given by the exponent of p = 2^-pexp (rates far below 1 / probes: the expected number of false positives is 0)
+AllowedOf(e, r10, probes) == IF e.pexp > 0 THEN 10 ELSE Allowed(r10, e.a, e.c, probes)
+Lg(b) == IF b <= 1 THEN 0 ELSE IF b <= 2 THEN 1 ELSE IF b <= 4 THEN 2 ELSE 3
 CuckooClauses(e, c, nm) ==
     Cl("C07.cuckooUsable (" \o nm \o "): constructor and use do not panic", c.res = "ok") \cup
     (IF c.res # "ok" THEN {} ELSE
        Cl("C07.cuckooAcceptsNDistinctInsertsWithoutFull (" \o nm \o ")", c.full = 0) \cup
        Cl("C07.cuckooNoFalseNegative (" \o nm \o ")", c.missing = 0) \cup
-       Cl("C07.cuckooFalsePositiveFrequency at most about p (6-sigma margin) (" \o nm \o ")", c.fp <= Allowed(10, e.a, e.c, c.probes)) \cup
+       Cl("C07.cuckooFalsePositiveFrequency at most about p (6-sigma margin) (" \o nm \o ")", c.fp <= AllowedOf(e, 10, c.probes)) \cup
        Cl("C07.cuckooCapacity (" \o nm \o ")", c.n_buckets * c.bucketsize >= e.n) \cup
        Cl("C07.cuckooRateBound 2b/2^l <= p (" \o nm \o ")",
-          c.l >= 31 \/ Pow2(c.l) * e.a >= 2 * c.bucketsize * e.c))
+          IF e.pexp > 0 THEN c.l >= e.pexp + 1 + Lg(c.bucketsize)
+          ELSE (c.l >= 31 \/ Pow2(c.l) * e.a >= 2 * c.bucketsize * e.c)))
 Failing(e) ==
     Cl("C07.bloomUsable: at least one hash function and one bit, no panic on use", e.bloom.res = "ok" /\ e.bloom.k >= 1 /\ e.bloom.m >= 1) \cup
     (IF e.bloom.res # "ok" THEN {} ELSE
@@ -31,7 +35,7 @@ Failing(e) ==
        \* only for n >= 1000: for small n (hence small m) the bit occupancy itself fluctuates by several percent from
        \* one hasher seed to the next, which a single-seed measurement cannot average out
        Cl("C07.bloomFalsePositiveFrequency: at most about 1.3 p (n >= 1000, 6-sigma margin on the probe sample)",
-          e.n >= 1000 => e.bloom.fp <= Allowed(13, e.a, e.c, e.bloom.probes)) \cup
+          e.n >= 1000 => e.bloom.fp <= AllowedOf(e, 13, e.bloom.probes)) \cup
        \* deterministic companion of the measured clause: the textbook rate (1 - e^(-kn/m))^k of the k and m the constructor
        \* chose, computed by the harness in floating point and handed over as milli-nats (TLC has no exp / ln)
        Cl("C07.bloomTheoreticalRate: (1 - e^(-kn/m))^k <= 1.3 p for the chosen k and m (n >= 50)",
